@@ -40,7 +40,13 @@ pub fn document(fmt: u32, contours: &[String]) -> String {
             continue;
         }
         s.push_str("<contour>\n");
-        for (pi, ch) in c.chars().enumerate() {
+        let chars: Vec<char> = c.chars().collect();
+        let mut pi = 0usize;
+        let mut k = 0usize;
+        while k < chars.len() {
+            let ch = chars[k];
+            let named = k + 1 < chars.len() && chars[k + 1] == '\'';
+            k += if named { 2 } else { 1 };
             s.push_str(&format!("<point x=\"{}\" y=\"{}\"", ci, pi));
             // an on-curve "line"/"offcurve" distinction is by the `type` attribute; offcurve may be
             // written without the attribute (the default), exercised for every second off-curve
@@ -50,12 +56,21 @@ pub fn document(fmt: u32, contours: &[String]) -> String {
             if ch.is_ascii_uppercase() {
                 s.push_str(" smooth=\"yes\"");
             }
+            if named {
+                // a name full of XML-special characters, written with entities
+                s.push_str(&format!(" name=\"{}\"", point_name(ci, pi).replace('&', "&amp;").replace('<', "&lt;").replace('"', "&quot;")));
+            }
             s.push_str("/>\n");
+            pi += 1;
         }
         s.push_str("</contour>\n");
     }
     s.push_str("</outline>\n</glyph>\n");
     s
+}
+
+pub fn point_name(ci: usize, pi: usize) -> String {
+    format!("Q&A<{}>\"'{}", ci, pi)
 }
 
 pub fn observe(fmt: u32, contours: &[String]) -> String {
@@ -82,12 +97,25 @@ pub fn observe(fmt: u32, contours: &[String]) -> String {
                     } else {
                         s.push(l);
                     }
+                    // names come back exactly as written, on the point they were written on
+                    if let Some(n) = &p.name {
+                        if n.as_str() == point_name(idx as usize, pi) {
+                            s.push('\'');
+                        } else {
+                            s.push('!');
+                        }
+                    }
                 }
                 parts.push(s);
             }
-            // anchors/components must not appear for these documents
-            let extra = if g.anchors.is_empty() && g.components.is_empty() { "" } else { " extra" };
-            format!("ok :{}{}", parts.join(","), extra)
+            // format 1: a contour consisting of one named move point becomes an anchor (x = contour index)
+            let mut anchors: Vec<String> = Vec::new();
+            for a in &g.anchors {
+                let ok = a.y == 0.0 && a.name.as_ref().map(|n| n.as_str() == point_name(a.x as usize, 0)).unwrap_or(false);
+                anchors.push(format!("{}{}", a.x as i64, if ok { "" } else { "?" }));
+            }
+            let extra = if g.components.is_empty() { "" } else { " extra" };
+            format!("ok :{} A:{}{}", parts.join(","), anchors.join(","), extra)
         }
     }
 }
@@ -139,6 +167,31 @@ pub fn gen(tier: &str, seed: u64, out: &mut dyn Write) {
             }
         });
     }
+    // long off-curve runs around the widths a narrower counter would wrap at (255/256/257, 511/512/513, 1023/1024/1025; the executable oracle is quadratic, so a 16-bit wrap is not reached)
+    for n in [254usize, 255, 256, 257, 258, 511, 512, 513, 1023, 1024, 1025] {
+        let o = "o".repeat(n);
+        for pat in [
+            format!("m{}l", o),
+            format!("l{}c", o),
+            format!("ml{}", o),
+            format!("ll{}", o),
+            format!("cl{}", o),
+            format!("l{}q", o),
+            format!("q{}", o),
+            o.clone(),
+            format!("oo{}c", &o[..n - 2]),
+        ] {
+            emit(out, 2, &[pat]);
+        }
+    }
+    // named points (names full of XML-special characters), both formats: in format 1 a contour of exactly one named
+    // move point becomes an anchor; every other named point stays where it is
+    for fmt in [1u32, 2] {
+        for pat in ["m'", "m'l", "m'll", "ml'", "m", "l'", "l'l", "o'oc", "m'o", "q'", "m'l'c'", "lc'oo"] {
+            emit(out, fmt, &[pat.to_string()]);
+            emit(out, fmt, &["ll".to_string(), pat.to_string(), "m'".to_string()]);
+        }
+    }
     // random: longer contours, several contours per outline, random smooth flags
     let mut rng = Rng::new(seed);
     let n = if tier == "thorough" { 200_000 } else { 20_000 };
@@ -167,6 +220,9 @@ pub fn gen(tier: &str, seed: u64, out: &mut dyn Write) {
                 }
                 let smooth = if c == 'o' { rng.chance(1, 40) } else { rng.chance(1, 3) };
                 s.push(if smooth { c.to_ascii_uppercase() } else { c });
+                if rng.chance(1, 6) {
+                    s.push('\'');
+                }
             }
             cs.push(s);
         }
